@@ -56,6 +56,7 @@ func ZZ_C06_seq(a []int) {
 		s = append(s, zzRefEncode(abs)...)
 	}
 	r := &zzContig{b: s}
+	var kept []ControlPacket
 	for i := range want {
 		q, err := ReadPacket(r)
 		zzAssert(err == nil, "a frame of a sequence is rejected")
@@ -63,6 +64,11 @@ func ZZ_C06_seq(a []int) {
 			return
 		}
 		zzViewEq(zzSnap(q), zzExpect(want[i]), "sequence frame "+zzItoa(i))
+		kept = append(kept, q)
+	}
+	// packets returned earlier are not touched by later calls
+	for i := range kept {
+		zzViewEq(zzSnap(kept[i]), zzExpect(want[i]), "after the later calls, sequence frame "+zzItoa(i))
 	}
 	zzReach("seq")
 	q, err := ReadPacket(r)
